@@ -1,7 +1,88 @@
 import ModbusVerif.Lemmas.GoEvalWideLemmas
 import ModbusVerif.Props.C17
 /-
-  C17, source tie for the 32 / 64-bit codecs (WORK IN PROGRESS HEADER)
+  C17, source tie for the 32 / 64-bit codecs of encoding.go. `uint32ToBytes`, `uint64ToBytes`, `float32ToBytes`,
+  `float64ToBytes`, `bytesToUint32s`, `bytesToUint64s`, `bytesToFloat32s`, `bytesToFloat64s`, as rendered by the
+  translator (`Gen.gsp_*`, regenerated from /repo on every run), are EVALUATED by `Modbus.GoEval` and proved equal,
+  for every input, to the hand-written models `Enc.*` (Model/Encoding.lean), about which Props/C17.lean proves the
+  property (exact inverses, documented layout). Before this file the wide codecs were tied to the source by
+  fingerprint and differential testing only. Helpers: Lemmas/GoEvalWideLemmas.lean.
+
+  ## What is proved (selector values: 1 = BIG_ENDIAN / HIGH_WORD_FIRST, 2 = LITTLE_ENDIAN / LOW_WORD_FIRST,
+  ## `endianOfInt`, `wordOfInt` map every other value to `.invalid`)
+  1. `C17W_uint32ToBytes`   every `v : U32`, EVERY pair of integers `(e, w)` — the four valid pairs and all others —,
+                            fuel ≥ 20: the run returns, `out` is the allocation, the final values of `out[0..3]` are
+                            `Enc.uint32ToBytes (endianOfInt e) (wordOfInt w) v`, the only call is the `PutUint32` of the
+                            byte order. Invalid selectors: for `e ∉ {1,2}` nothing is stored, the four zero bytes of
+                            `make` are returned = the model's `.invalid` case; for `w ∉ {1,2}` the source's
+                            `wordOrder == LOW_WORD_FIRST` (big-endian) / `== HIGH_WORD_FIRST` (little-endian) tests
+                            fail, no swap = the model's `if w = .lowFirst` / `if w = .highFirst` on `.invalid`: source
+                            and model AGREE on every selector value (the public API lets only valid ones through:
+                            `SetEncoding`, C16). `C17W_uint32ToBytes_valid`: the same with the model's own names.
+  2. `C17W_uint64ToBytes`   the same for 8 bytes (sixteen temporaries), fuel ≥ 30. `C17W_twins`: the plain renderings
+                            `gs_uint32ToBytes` / `gs_uint64ToBytes` ARE the richer ones.
+  3. `C17W_floatToBytes`    (`C17W_float32ToBytes`, `C17W_float64ToBytes`) every bit pattern, every `(e, w)`: the run
+                            calls `math.Float32bits(in)` then `uint32ToBytes(endianness, wordOrder, that)` and returns
+                            its result; the integer codec run on THOSE argument values gives the model's bytes.
+  4. `C17W_bytesToUint32s`  every byte string of length < 2^62, `e ∈ {1,2}`, EVERY integer `w`, fuel ≥ len/4 + 20:
+                            length a multiple of 4: the run returns having appended exactly the model's list, in order;
+                            otherwise the model says `none` and the run STOPS in its last round — at the slice
+                            expression `in[i:i+4]` (Go: slice bounds out of range) or at the byte literal that needs
+                            `in[i+3]` (Go: index out of range) — after ⌊len/4⌋ values. `C17W_dec32_instr`: the
+                            evaluated term is the generated one + the probe. `C17W_bytesToUint32s_invalid`: `e ∉ {1,2}`,
+                            see "findings".
+  5. `C17W_bytesToUint64s`  the same with 8 (`C17W_dec64_instr`, `C17W_bytesToUint64s_invalid`).
+  6. `C17W_bytesToFloats`   (`C17W_bytesToFloat32s`, `C17W_bytesToFloat64s`, `C17W_decF32_instr`, `C17W_decF64_instr`)
+                            the wrapper calls the integer decoder once, with `(endianness, wordOrder, in)`, and appends
+                            `math.Float32frombits` of every element of ITS result, in order (value-range loop over `#i`);
+                            composed with 4/5: the appended patterns are the model's.
+  7. `C17W_roundtrip_src`   all four valid pairs, every value: the decoder run on the bytes the encoder run left in
+                            `out[0..]` returns having appended exactly the value (items 1/2, 4/5 and the model's
+                            `u32_roundtrip` / `u64_roundtrip`).
+  8. sensitivity            `C17W_layouts32/64` (0x11223344 ↦ `11 22 33 44`, `33 44 11 22`, `44 33 22 11`,
+                            `22 11 44 33`; 64 bit likewise), `C17W_decode_samples`, `C17W_sensitive` (four variants
+                            DERIVED from the generated terms: swap for the wrong word order, another permutation,
+                            decoder literal with two bytes exchanged, 64-bit halves exchanged, each gives other
+                            bytes / another value), `C17W_sensitive_noProbe` (why the probes), all by `decide +kernel`.
+
+  ## Findings
+  * None within the contract. OUT OF CONTRACT (`C17W_bytesToUint32s_invalid`, `…64s_invalid`,
+    `C17W_decode_invalid_endianness`): with a byte order that is neither constant the decoders read no element and
+    append ⌈len/n⌉ zeros for EVERY length, while the model returns `none` when the length is not a multiple of n
+    (e.g. `e = 3`, 6 bytes: source `[0, 0]`, model `none`). This is the divergence already documented at the head of
+    Model/Encoding.lean ("with an invalid endianness the 32/64-bit decoders never index"); not reachable through
+    the public API (C16: `SetEncoding` rejects other values; client and server check the byte count first).
+
+  ## What is MODELLED rather than derived from the generated terms
+  * encoding/binary, transcribed (Lemmas/GoEvalWideLemmas §2): `putBE32 v = [byte(v>>24), byte(v>>16), byte(v>>8),
+    byte(v)]`, `putLE32`, `putBE64`, `putLE64` (what `PutUint32/64` STORE), `beU32 b = b[3] | b[2]<<8 | b[1]<<16 |
+    b[0]<<24` after the bounds check `_ = b[3]`, `leU32`, `beU64`, `leU64` (what `Uint32/64` READ). Their equality with
+    the model's `be32`, `mk32` … is proved (`putBE32_eq`, `beU32_four`, …).
+  * THE STORE MODEL of the encoders. `binary.….PutUint32(out, in)` is a call statement without results that stores
+    through its first argument. The removable instrumentation `withStoreTargets` gives the call the targets
+    `out[0]`, …, `out[3]`: the oracle's answer — the four stored bytes — is bound to the element leaves
+    (`C17W_enc32_instr`: `stripStoreTargets` gives the generated term back). The word swap is the generated term's own
+    eight assignments through `#tmp0..3` on these text-keyed leaves (constant indices). The entry environment binds
+    `out[0..3]` to 0: the elements of `make([]byte, 4)`; `out` is assigned once, first, to the allocation leaf (a
+    symbol), so these are the elements of the slice the function returns. The result is read off the final values
+    of `out[0..]` (`wideReadAll`). NOT represented: the identity of the stored-to array with `out`.
+  * THE WORLD of the decoders (`wideWorld bs`, history-dependent: `execFromW`). A byte slice is a HANDLE = the
+    position in the call log of the `slice` / `bytes` call that made it; `slice [in, lo, hi]` denotes `bs[lo:hi]` and is
+    refused (Go: panic) unless `0 ≤ lo ≤ hi ≤ len(bs)` (convention `cap(in) = len(in)`, as in the model); `bytes
+    [a, …]` denotes its arguments and is refused when one has no value; `binary.….Uint32 [h]` is the transcription on the
+    object of `h`; `append [out, v]` is answered with the opaque symbol `out` when `v` is an integer, the appended values
+    are read off the log (`wideAppended`).
+  * PROBES. `in[i+k]` is ONE text key whatever `i` is: the removable instrumentation `withLeaves` inserts, at the head
+    of every loop body (the `for` loop and the translator's one-shot `switch` loop), the pseudo-call
+    `in[i+0], …, in[i+3] := #in[i+0..3](i)`, answered from `bs` and the VALUE of `i` (`probeAt`: `unk` outside the
+    input). `stripLeaves` removes it (`C17W_dec32_instr`). Same for `u32s[#i]` in the float wrappers.
+  * entry environments: `len(in)` is the length of `bs`; `u32` / `u64` start at 0 (Go's `var u32 uint32`, not rendered);
+    `in`, `out` are opaque symbols; in the float wrappers `len(u32s)` (read after `u32s` is assigned) is bound to the
+    length of the integer decoder's result, and the integer codec calls are answered with opaque symbols — their runs
+    are items 1, 2, 4, 5, composed through the logged argument values.
+  * FLOATS are their IEEE-754 bit patterns (as in Props/C17 and `Client.Op`): `math.Float32bits`, `Float32frombits`,
+    `Float64bits`, `Float64frombits` are bit-exact, i.e. the identity on the representation (`bitsAns`).
+  * Bounds: lengths < 2^62 (`i += 4` must not wrap in `int`).
 -/
 set_option linter.unusedSimpArgs false
 set_option linter.unusedVariables false
@@ -31,10 +112,13 @@ def wideEnc32Gs : GStmt :=
   withStoreTargets "binary.BigEndian.PutUint32" wideOut4
     (withStoreTargets "binary.LittleEndian.PutUint32" wideOut4 gsp_uint32ToBytes)
 
+/-- the evaluated term is the generated one with targets on the two `PutUint32` calls; `out` is assigned once,
+    to the allocation leaf -/
 theorem C17W_enc32_instr :
     stripStoreTargets "binary.BigEndian.PutUint32"
-      (stripStoreTargets "binary.LittleEndian.PutUint32" wideEnc32Gs) = gsp_uint32ToBytes := by
-  rfl
+      (stripStoreTargets "binary.LittleEndian.PutUint32" wideEnc32Gs) = gsp_uint32ToBytes ∧
+    assignedTexts "out" wideEnc32Gs = [some "make([]byte, 4)"] :=
+  ⟨rfl, rfl⟩
 
 /-- entry environment: the parameters, the allocation leaf (a symbol), and the four ZERO bytes of
     `make([]byte, 4)` as the initial values of the element leaves -/
@@ -49,8 +133,9 @@ def wideEnc64Gs : GStmt :=
 
 theorem C17W_enc64_instr :
     stripStoreTargets "binary.BigEndian.PutUint64"
-      (stripStoreTargets "binary.LittleEndian.PutUint64" wideEnc64Gs) = gsp_uint64ToBytes := by
-  rfl
+      (stripStoreTargets "binary.LittleEndian.PutUint64" wideEnc64Gs) = gsp_uint64ToBytes ∧
+    assignedTexts "out" wideEnc64Gs = [some "make([]byte, 8)"] :=
+  ⟨rfl, rfl⟩
 
 def wideEnc64Env (e w v : Int) : Env :=
   [("endianness", .int e), ("wordOrder", .int w), ("in", .int v),
@@ -64,20 +149,6 @@ def wideReadAll (env : Env) (keys : List String) : List Val := keys.map (Env.rea
 theorem wideReadAll_cons (env k ks) : wideReadAll env (k :: ks) = Env.read env k :: wideReadAll env ks := by
   exact id rfl
 theorem wideReadAll_nil (env) : wideReadAll env [] = [] := by exact id rfl
-
-theorem wide_word_ne2 {w : Int} (h : ¬ w = 2) : ¬ wordOfInt w = .lowFirst := by
-  unfold wordOfInt
-  by_cases h1 : w = 1
-  · rw [if_pos h1]; exact fun h => nomatch h
-  · rw [if_neg h1, if_neg h]; exact fun h => nomatch h
-theorem wide_word_ne1 {w : Int} (h : ¬ w = 1) : ¬ wordOfInt w = .highFirst := by
-  unfold wordOfInt
-  rw [if_neg h]
-  by_cases h2 : w = 2
-  · rw [if_pos h2]; exact fun h => nomatch h
-  · rw [if_neg h2]; exact fun h => nomatch h
-theorem wide_endian_invalid {e : Int} (h1 : ¬ e = 1) (h2 : ¬ e = 2) : endianOfInt e = .invalid := by
-  unfold endianOfInt; rw [if_neg h1, if_neg h2]
 
 /-- symbolic evaluation of the encoder runs (`go_eval` with the definitions of this section) -/
 local macro "wide_enc_eval" " [" ls:Lean.Parser.Tactic.simpLemma,* "]" : tactic =>
@@ -125,8 +196,13 @@ theorem C17W_uint32ToBytes_valid (e : Endian) (w : WordOrder) (he : e ≠ .inval
   rw [endianOfInt_intOfEndian, wordOfInt_intOfWord] at h
   exact ⟨h.1, h.2.2.1⟩
 
+/-- the plain rendering `gs_…` of the two integer encoders coincides with the richer one (no `append`, no call in
+    argument position, no literal): the theorems are about both -/
+theorem C17W_twins : gs_uint32ToBytes = gsp_uint32ToBytes ∧ gs_uint64ToBytes = gsp_uint64ToBytes := ⟨rfl, rfl⟩
+
 /-! ## 2. `uint64ToBytes` -/
 
+/-- **`uint64ToBytes` = `Enc.uint64ToBytes`**, every value, every pair of selector values, fuel ≥ 30 -/
 theorem C17W_uint64ToBytes (e w : Int) (v : U64) (fuel : Nat) (hf : 30 ≤ fuel) :
     let r := exec widePutOracle fuel wideEnc64Gs (wideEnc64Env e w (v.toNat : Int))
     r.how = .returned ∧ Env.read r.env "out" = .sym "make([]byte, 8)" ∧
@@ -160,4 +236,581 @@ theorem C17W_uint64ToBytes_valid (e : Endian) (w : WordOrder) (he : e ≠ .inval
   rw [endianOfInt_intOfEndian, wordOfInt_intOfWord] at h
   exact ⟨h.1, h.2.2.1⟩
 
+/-! ## 3. `float32ToBytes`, `float64ToBytes` -/
+
+/-- entry environment of `uint32ToBytes` formed from the argument values of a call to it -/
+def wideEnc32EnvOfArgs (args : List Val) : Env :=
+  match args with
+  | [.int e, .int w, .int v] => wideEnc32Env e w v
+  | _ => []
+
+/-- `float32ToBytes`: `math.Float32bits(in)` (the pattern), then `uint32ToBytes(endianness, wordOrder, pattern)`,
+    whose result is returned; the integer codec run on the argument values of that call gives the model's bytes -/
+theorem C17W_float32ToBytes (e w : Int) (p : U32) (fuel : Nat) (hf : 30 ≤ fuel) :
+    let r := execFromW (wideFloatWorld []) fuel gsp_float32ToBytes
+      [("endianness", .int e), ("wordOrder", .int w), ("in", .int (p.toNat : Int))] []
+    r.how = .returned ∧
+    r.calls = [("math.Float32bits", [.int (p.toNat : Int)]),
+               ("uint32ToBytes", [.int e, .int w, .int (p.toNat : Int)])] ∧
+    Env.read r.env "out" = .sym "uint32ToBytes" ∧
+    ∀ args, r.argsOf "uint32ToBytes" = [args] →
+      let r2 := exec widePutOracle fuel wideEnc32Gs (wideEnc32EnvOfArgs args)
+      r2.how = .returned ∧
+      wideReadAll r2.env wideOut4 = (Enc.uint32ToBytes (endianOfInt e) (wordOfInt w) p).map byteVal := by
+  obtain ⟨m, rfl⟩ : ∃ m, fuel = m + 30 := ⟨fuel - 30, by omega⟩
+  have hrun : execFromW (wideFloatWorld []) (m + 30) gsp_float32ToBytes
+      [("endianness", .int e), ("wordOrder", .int w), ("in", .int (p.toNat : Int))] [] =
+      ⟨Env.write (Env.write [("endianness", .int e), ("wordOrder", .int w), ("in", .int (p.toNat : Int))]
+          "#arg0" (.int (p.toNat : Int))) "out" (.sym "uint32ToBytes"), .returned,
+        [("math.Float32bits", [.int (p.toNat : Int)]),
+         ("uint32ToBytes", [.int e, .int w, .int (p.toNat : Int)])]⟩ := by
+    go_evalW [gsp_float32ToBytes, wideFloatWorld_bits32, wideFloatWorld_enc32, bitsAns_int]
+  dsimp only
+  rw [hrun]
+  refine ⟨rfl, rfl, rfl, ?_⟩
+  intro args hargs
+  have ha : args = [.int e, .int w, .int (p.toNat : Int)] := by
+    have : [[Val.int e, Val.int w, Val.int (p.toNat : Int)]] = [args] := hargs
+    simp only [List.cons.injEq, and_true] at this
+    exact this.symm
+  subst ha
+  have h := C17W_uint32ToBytes e w p (m + 30) (by omega)
+  exact ⟨h.1, h.2.2.1⟩
+
+/-- entry environment of `uint64ToBytes` formed from the argument values of a call to it -/
+def wideEnc64EnvOfArgs (args : List Val) : Env :=
+  match args with
+  | [.int e, .int w, .int v] => wideEnc64Env e w v
+  | _ => []
+
+/-- `float64ToBytes`, likewise -/
+theorem C17W_float64ToBytes (e w : Int) (p : U64) (fuel : Nat) (hf : 30 ≤ fuel) :
+    let r := execFromW (wideFloatWorld []) fuel gsp_float64ToBytes
+      [("endianness", .int e), ("wordOrder", .int w), ("in", .int (p.toNat : Int))] []
+    r.how = .returned ∧
+    r.calls = [("math.Float64bits", [.int (p.toNat : Int)]),
+               ("uint64ToBytes", [.int e, .int w, .int (p.toNat : Int)])] ∧
+    Env.read r.env "out" = .sym "uint64ToBytes" ∧
+    ∀ args, r.argsOf "uint64ToBytes" = [args] →
+      let r2 := exec widePutOracle fuel wideEnc64Gs (wideEnc64EnvOfArgs args)
+      r2.how = .returned ∧
+      wideReadAll r2.env wideOut8 = (Enc.uint64ToBytes (endianOfInt e) (wordOfInt w) p).map byteVal := by
+  obtain ⟨m, rfl⟩ : ∃ m, fuel = m + 30 := ⟨fuel - 30, by omega⟩
+  have hrun : execFromW (wideFloatWorld []) (m + 30) gsp_float64ToBytes
+      [("endianness", .int e), ("wordOrder", .int w), ("in", .int (p.toNat : Int))] [] =
+      ⟨Env.write (Env.write [("endianness", .int e), ("wordOrder", .int w), ("in", .int (p.toNat : Int))]
+          "#arg0" (.int (p.toNat : Int))) "out" (.sym "uint64ToBytes"), .returned,
+        [("math.Float64bits", [.int (p.toNat : Int)]),
+         ("uint64ToBytes", [.int e, .int w, .int (p.toNat : Int)])]⟩ := by
+    go_evalW [gsp_float64ToBytes, wideFloatWorld_bits64, wideFloatWorld_enc64, bitsAns_int]
+  dsimp only
+  rw [hrun]
+  refine ⟨rfl, rfl, rfl, ?_⟩
+  intro args hargs
+  have ha : args = [.int e, .int w, .int (p.toNat : Int)] := by
+    have : [[Val.int e, Val.int w, Val.int (p.toNat : Int)]] = [args] := hargs
+    simp only [List.cons.injEq, and_true] at this
+    exact this.symm
+  subst ha
+  have h := C17W_uint64ToBytes e w p (m + 30) (by omega)
+  exact ⟨h.1, h.2.2.1⟩
+
+/-- **the float encoders** are `math.Float32bits` / `Float64bits` (bit-exact: the float IS its pattern in this
+    rendering) followed by the integer codec with the same byte and word order -/
+theorem C17W_floatToBytes (e w : Int) (fuel : Nat) (hf : 30 ≤ fuel) :
+    (∀ p : U32,
+      let r := execFromW (wideFloatWorld []) fuel gsp_float32ToBytes
+        [("endianness", .int e), ("wordOrder", .int w), ("in", .int (p.toNat : Int))] []
+      r.how = .returned ∧ r.argsOf "math.Float32bits" = [[.int (p.toNat : Int)]] ∧
+      r.argsOf "uint32ToBytes" = [[.int e, .int w, .int (p.toNat : Int)]] ∧
+      wideReadAll (exec widePutOracle fuel wideEnc32Gs (wideEnc32EnvOfArgs [.int e, .int w, .int (p.toNat : Int)])).env
+        wideOut4 = (Enc.uint32ToBytes (endianOfInt e) (wordOfInt w) p).map byteVal) ∧
+    (∀ p : U64,
+      let r := execFromW (wideFloatWorld []) fuel gsp_float64ToBytes
+        [("endianness", .int e), ("wordOrder", .int w), ("in", .int (p.toNat : Int))] []
+      r.how = .returned ∧ r.argsOf "math.Float64bits" = [[.int (p.toNat : Int)]] ∧
+      r.argsOf "uint64ToBytes" = [[.int e, .int w, .int (p.toNat : Int)]] ∧
+      wideReadAll (exec widePutOracle fuel wideEnc64Gs (wideEnc64EnvOfArgs [.int e, .int w, .int (p.toNat : Int)])).env
+        wideOut8 = (Enc.uint64ToBytes (endianOfInt e) (wordOfInt w) p).map byteVal) := by
+  constructor
+  · intro p
+    obtain ⟨h1, h2, _, h4⟩ := C17W_float32ToBytes e w p fuel hf
+    dsimp only at h1 h2 h4 ⊢
+    have ha : (execFromW (wideFloatWorld []) fuel gsp_float32ToBytes
+        [("endianness", .int e), ("wordOrder", .int w), ("in", .int (p.toNat : Int))] []).argsOf "uint32ToBytes" =
+        [[.int e, .int w, .int (p.toNat : Int)]] := by
+      rw [Res.argsOf, h2]; rfl
+    refine ⟨h1, ?_, ha, (h4 _ ha).2⟩
+    rw [Res.argsOf, h2]; rfl
+  · intro p
+    obtain ⟨h1, h2, _, h4⟩ := C17W_float64ToBytes e w p fuel hf
+    dsimp only at h1 h2 h4 ⊢
+    have ha : (execFromW (wideFloatWorld []) fuel gsp_float64ToBytes
+        [("endianness", .int e), ("wordOrder", .int w), ("in", .int (p.toNat : Int))] []).argsOf "uint64ToBytes" =
+        [[.int e, .int w, .int (p.toNat : Int)]] := by
+      rw [Res.argsOf, h2]; rfl
+    refine ⟨h1, ?_, ha, (h4 _ ha).2⟩
+    rw [Res.argsOf, h2]; rfl
+
+/-! ## 4. `bytesToUint32s` -/
+
+/-- entry environment of the decoders: the selectors, the input slice and the (nil) named result as opaque
+    symbols, the length leaf, the zero value of `var u32 uint32` / `var u64 uint64` -/
+def wideDecEnv (e w : Int) (n : Nat) : Env :=
+  [("endianness", .int e), ("wordOrder", .int w), ("in", .sym "in"), ("len(in)", .int (n : Int)),
+   ("out", .sym "out"), ("u32", .int 0), ("u64", .int 0)]
+
+theorem wideDecEnv_inv (e w : Int) (n : Nat) :
+    DecInv (Env.write (wideDecEnv e w n) "i" (.int 0)) ([] : Bytes).length n e w :=
+  ⟨rfl, rfl, rfl, rfl, rfl, rfl⟩
+
+/-- the evaluated term is the generated one plus the probe at the head of the two loop bodies -/
+theorem C17W_dec32_instr :
+    stripLeaves "#in[i+0..3]" dec32Gs = gsp_bytesToUint32s ∧
+    dec32Gs = .seq (.seq (.assign "i" (.lit (0) .int)) (.loop dec32Body)) .ret :=
+  ⟨strip_dec32Gs, dec32Gs_eq⟩
+
+/-- **the loop of `bytesToUint32s` computes `Enc.bytesToUint32s`**: every byte string of length < 2^62, byte order
+    1 or 2, every word-order value, fuel ≥ len/4 + 20. Length a multiple of 4: the model returns `some vs`, the run
+    returns having appended exactly `vs`, in order. Otherwise the model returns `none` and the run stops in the round
+    after the ⌊len/4⌋ complete ones, at the slice expression or the byte literal that runs off the input (Go: slice
+    bounds / index out of range panic), having appended the ⌊len/4⌋ complete values. -/
+theorem C17W_bytesToUint32s (e w : Int) (he : e = 1 ∨ e = 2) (bs : Bytes) (hn : bs.length < 2^62)
+    (fuel : Nat) (hf : bs.length / 4 + 20 ≤ fuel) :
+    let r := execFromW (wideWorld bs) fuel dec32Gs (wideDecEnv e w bs.length) []
+    (bs.length % 4 = 0 → ∃ vs, Enc.bytesToUint32s (endianOfInt e) (wordOfInt w) bs = some vs ∧
+      r.how = .returned ∧ wideAppended r.calls = vs.map u32Val) ∧
+    (bs.length % 4 ≠ 0 → Enc.bytesToUint32s (endianOfInt e) (wordOfInt w) bs = none ∧
+      (∃ args, r.how = .stoppedAt "slice" args ∨ r.how = .stoppedAt "bytes" args) ∧
+      ∃ vs : List U32, vs.length = bs.length / 4 ∧ wideAppended r.calls = vs.map u32Val) := by
+  obtain ⟨f, rfl⟩ : ∃ f, fuel = f + 3 := ⟨fuel - 3, by omega⟩
+  dsimp only
+  rw [dec32Gs_eq, dec_whole]
+  obtain ⟨l1, l2, l3⟩ := dec32_loop bs hn e w he (bs.length / 4) [] bs
+    (Env.write (wideDecEnv e w bs.length) "i" (.int 0)) [] (f + 1) rfl rfl (wideDecEnv_inv e w bs.length)
+    (by omega)
+  rw [wideAppended_nil, List.nil_append] at l1
+  have hm := bytesToUint32s_chunks (endianOfInt e) (wordOfInt w) bs
+  constructor
+  · intro h4
+    rw [seqKW_ret_fell _ _ _ (l2 h4)]
+    exact ⟨_, by rw [hm, if_pos h4], rfl, l1⟩
+  · intro h4
+    obtain ⟨args, ha⟩ := l3 h4
+    have hnf : (execFromW (wideWorld bs) (f + 1) (.loop dec32Body)
+        (Env.write (wideDecEnv e w bs.length) "i" (.int 0)) []).how ≠ .fell := by
+      rcases ha with ha | ha <;> rw [ha] <;> exact fun h => nomatch h
+    rw [seqKW_of_not_fell _ _ _ _ hnf]
+    exact ⟨by rw [hm, if_neg h4], ⟨args, ha⟩, _, wideChunks32_length _ _ bs, l1⟩
+
+/-! ## 5. `bytesToUint64s` -/
+
+theorem C17W_dec64_instr :
+    stripLeaves "#in[i+0..7]" dec64Gs = gsp_bytesToUint64s ∧
+    dec64Gs = .seq (.seq (.assign "i" (.lit (0) .int)) (.loop dec64Body)) .ret :=
+  ⟨strip_dec64Gs, dec64Gs_eq⟩
+
+/-- **the loop of `bytesToUint64s` computes `Enc.bytesToUint64s`**, likewise with 8 -/
+theorem C17W_bytesToUint64s (e w : Int) (he : e = 1 ∨ e = 2) (bs : Bytes) (hn : bs.length < 2^62)
+    (fuel : Nat) (hf : bs.length / 8 + 20 ≤ fuel) :
+    let r := execFromW (wideWorld bs) fuel dec64Gs (wideDecEnv e w bs.length) []
+    (bs.length % 8 = 0 → ∃ vs, Enc.bytesToUint64s (endianOfInt e) (wordOfInt w) bs = some vs ∧
+      r.how = .returned ∧ wideAppended r.calls = vs.map u64Val) ∧
+    (bs.length % 8 ≠ 0 → Enc.bytesToUint64s (endianOfInt e) (wordOfInt w) bs = none ∧
+      (∃ args, r.how = .stoppedAt "slice" args ∨ r.how = .stoppedAt "bytes" args) ∧
+      ∃ vs : List U64, vs.length = bs.length / 8 ∧ wideAppended r.calls = vs.map u64Val) := by
+  obtain ⟨f, rfl⟩ : ∃ f, fuel = f + 3 := ⟨fuel - 3, by omega⟩
+  dsimp only
+  rw [dec64Gs_eq, dec_whole]
+  obtain ⟨l1, l2, l3⟩ := dec64_loop bs hn e w he (bs.length / 8) [] bs
+    (Env.write (wideDecEnv e w bs.length) "i" (.int 0)) [] (f + 1) rfl rfl (wideDecEnv_inv e w bs.length)
+    (by omega)
+  rw [wideAppended_nil, List.nil_append] at l1
+  have hm := bytesToUint64s_chunks (endianOfInt e) (wordOfInt w) bs.length bs rfl
+  constructor
+  · intro h8
+    rw [seqKW_ret_fell _ _ _ (l2 h8)]
+    exact ⟨_, by rw [hm, if_pos h8], rfl, l1⟩
+  · intro h8
+    obtain ⟨args, ha⟩ := l3 h8
+    have hnf : (execFromW (wideWorld bs) (f + 1) (.loop dec64Body)
+        (Env.write (wideDecEnv e w bs.length) "i" (.int 0)) []).how ≠ .fell := by
+      rcases ha with ha | ha <;> rw [ha] <;> exact fun h => nomatch h
+    rw [seqKW_of_not_fell _ _ _ _ hnf]
+    exact ⟨by rw [hm, if_neg h8], ⟨args, ha⟩, _, wideChunks64_length _ _ bs.length bs rfl, l1⟩
+
+/-! ## 5b. the decoders with an invalid byte order -/
+
+/-- **a byte order that is neither constant** (out of contract: `SetEncoding` rejects it, C16): no `case` matches,
+    no element of `in` is read, every round appends the zero value of `u32` — ⌈len/4⌉ zeros, for EVERY length, and
+    the function returns. The model agrees when the length is a multiple of 4 (`len/4` zeros) and says `none`
+    otherwise: on those inputs (e.g. 6 bytes, `C17W_decode_invalid_endianness`) source and model DIFFER; this is
+    the divergence documented at the head of Model/Encoding.lean, not reachable through the public API. -/
+theorem C17W_bytesToUint32s_invalid (e w : Int) (h1 : ¬ e = 1) (h2 : ¬ e = 2) (bs : Bytes)
+    (hn : bs.length < 2^62) (fuel : Nat) (hf : bs.length / 4 + 21 ≤ fuel) :
+    let r := execFromW (wideWorld bs) fuel dec32Gs (wideDecEnv e w bs.length) []
+    r.how = .returned ∧ wideAppended r.calls = List.replicate ((bs.length + (4 - 1)) / 4) (.int 0) ∧
+    Enc.bytesToUint32s (endianOfInt e) (wordOfInt w) bs =
+      (if bs.length % 4 = 0 then some (List.replicate (bs.length / 4) 0) else none) := by
+  obtain ⟨f, rfl⟩ : ∃ f, fuel = f + 3 := ⟨fuel - 3, by omega⟩
+  dsimp only
+  rw [dec32Gs_eq, dec_whole]
+  obtain ⟨l1, l2⟩ := dec32_loop_invalid bs bs.length hn e w h1 h2 ((bs.length + (4 - 1)) / 4) 0
+    (Env.write (wideDecEnv e w bs.length) "i" (.int 0)) [] (f + 1) (by rw [Nat.sub_zero])
+    (wideDecEnv_inv e w bs.length) rfl (by omega)
+  rw [seqKW_ret_fell _ _ _ l1]
+  refine ⟨rfl, by rw [l2, wideAppended_nil, List.nil_append], ?_⟩
+  rw [bytesToUint32s_chunks, wide_endian_invalid h1 h2, wideChunks32_invalid]
+
+/-- **a byte order that is neither constant** (out of contract: `SetEncoding` rejects it, C16): no `case` matches,
+    no element of `in` is read, every round appends the zero value of `u64` — ⌈len/8⌉ zeros, for EVERY length, and
+    the function returns. The model agrees when the length is a multiple of 8 (`len/8` zeros) and says `none`
+    otherwise: on those inputs (e.g. 6 bytes, `C17W_decode_invalid_endianness`) source and model DIFFER; this is
+    the divergence documented at the head of Model/Encoding.lean, not reachable through the public API. -/
+theorem C17W_bytesToUint64s_invalid (e w : Int) (h1 : ¬ e = 1) (h2 : ¬ e = 2) (bs : Bytes)
+    (hn : bs.length < 2^62) (fuel : Nat) (hf : bs.length / 8 + 21 ≤ fuel) :
+    let r := execFromW (wideWorld bs) fuel dec64Gs (wideDecEnv e w bs.length) []
+    r.how = .returned ∧ wideAppended r.calls = List.replicate ((bs.length + (8 - 1)) / 8) (.int 0) ∧
+    Enc.bytesToUint64s (endianOfInt e) (wordOfInt w) bs =
+      (if bs.length % 8 = 0 then some (List.replicate (bs.length / 8) 0) else none) := by
+  obtain ⟨f, rfl⟩ : ∃ f, fuel = f + 3 := ⟨fuel - 3, by omega⟩
+  dsimp only
+  rw [dec64Gs_eq, dec_whole]
+  obtain ⟨l1, l2⟩ := dec64_loop_invalid bs bs.length hn e w h1 h2 ((bs.length + (8 - 1)) / 8) 0
+    (Env.write (wideDecEnv e w bs.length) "i" (.int 0)) [] (f + 1) (by rw [Nat.sub_zero])
+    (wideDecEnv_inv e w bs.length) rfl (by omega)
+  rw [seqKW_ret_fell _ _ _ l1]
+  refine ⟨rfl, by rw [l2, wideAppended_nil, List.nil_append], ?_⟩
+  rw [bytesToUint64s_chunks _ _ bs.length bs rfl, wide_endian_invalid h1 h2, wideChunks64_invalid _ bs.length bs rfl]
+
+/-! ## 6. `bytesToFloat32s`, `bytesToFloat64s` -/
+
+/-- entry environment of `bytesToFloat32s`: the parameters, the (nil) result, and the leaf `len(u32s)` bound to the
+    length of the integer decoder's result (the meaning of the leaf; it is read after `u32s` is assigned) -/
+def wideFloatDec32Env (e w : Int) (n : Nat) : Env :=
+  [("endianness", .int e), ("wordOrder", .int w), ("in", .sym "in"), ("len(u32s)", .int (n : Int)),
+   ("out", .sym "out")]
+
+theorem C17W_decF32_instr :
+    stripLeaves "#u32s[#i]" decF32Gs = gsp_bytesToFloat32s ∧ decF32Gs = decF32With (.loop decF32Body) :=
+  ⟨strip_decF32Gs, decF32Gs_eq⟩
+
+/-- the wrapper on a decoder result `vs` (every list, every selector pair): one call to the integer decoder with
+    `(endianness, wordOrder, in)`, then `math.Float32frombits` of every element appended in order -/
+theorem C17W_bytesToFloat32s (e w : Int) (vs : List U32) (hn : vs.length < 2^62) (fuel : Nat)
+    (hf : vs.length + 20 ≤ fuel) :
+    let r := execFromW (wideFloatWorld (vs.map (fun v => (v.toNat : Int)))) fuel decF32Gs
+      (wideFloatDec32Env e w vs.length) []
+    r.how = .returned ∧ r.argsOf "bytesToUint32s" = [[.int e, .int w, .sym "in"]] ∧
+    wideAppended r.calls = vs.map u32Val := by
+  obtain ⟨f, rfl⟩ : ∃ f, fuel = f + 5 := ⟨fuel - 5, by omega⟩
+  dsimp only
+  have hl : (vs.map (fun v => (v.toNat : Int))).length = vs.length := List.length_map _
+  rw [decF32Gs_eq, decF32_whole _ _ (wideFloatDec32Env e w vs.length) f e w vs.length rfl rfl rfl rfl]
+  obtain ⟨l1, l2, l3⟩ := decF32_loop (vs.map (fun v => (v.toNat : Int))) (by rw [hl]; exact hn) vs.length 0
+    (Env.write (Env.write (Env.write (wideFloatDec32Env e w vs.length) "u32s" (.sym "u32s")) "#len(u32s)"
+      (.int (vs.length : Int))) "#i" (.int 0))
+    [("bytesToUint32s", [.int e, .int w, .sym "in"])] (f + 1) (by rw [hl]; omega)
+    (by rw [hl]; exact ⟨rfl, rfl, rfl⟩) (by omega)
+  rw [seqKW_ret_fell _ _ _ l1]
+  refine ⟨rfl, ?_, ?_⟩
+  · rw [← wideArgs_eq_argsOf]; exact l3
+  · rw [l2, List.drop_zero, List.map_map]; rfl
+
+/-- entry environment of `bytesToFloat64s`: the parameters, the (nil) result, and the leaf `len(u64s)` bound to the
+    length of the integer decoder's result (the meaning of the leaf; it is read after `u64s` is assigned) -/
+def wideFloatDec64Env (e w : Int) (n : Nat) : Env :=
+  [("endianness", .int e), ("wordOrder", .int w), ("in", .sym "in"), ("len(u64s)", .int (n : Int)),
+   ("out", .sym "out")]
+
+theorem C17W_decF64_instr :
+    stripLeaves "#u64s[#i]" decF64Gs = gsp_bytesToFloat64s ∧ decF64Gs = decF64With (.loop decF64Body) :=
+  ⟨strip_decF64Gs, decF64Gs_eq⟩
+
+/-- likewise for 64 bits -/
+theorem C17W_bytesToFloat64s (e w : Int) (vs : List U64) (hn : vs.length < 2^62) (fuel : Nat)
+    (hf : vs.length + 20 ≤ fuel) :
+    let r := execFromW (wideFloatWorld (vs.map (fun v => (v.toNat : Int)))) fuel decF64Gs
+      (wideFloatDec64Env e w vs.length) []
+    r.how = .returned ∧ r.argsOf "bytesToUint64s" = [[.int e, .int w, .sym "in"]] ∧
+    wideAppended r.calls = vs.map u64Val := by
+  obtain ⟨f, rfl⟩ : ∃ f, fuel = f + 5 := ⟨fuel - 5, by omega⟩
+  dsimp only
+  have hl : (vs.map (fun v => (v.toNat : Int))).length = vs.length := List.length_map _
+  rw [decF64Gs_eq, decF64_whole _ _ (wideFloatDec64Env e w vs.length) f e w vs.length rfl rfl rfl rfl]
+  obtain ⟨l1, l2, l3⟩ := decF64_loop (vs.map (fun v => (v.toNat : Int))) (by rw [hl]; exact hn) vs.length 0
+    (Env.write (Env.write (Env.write (wideFloatDec64Env e w vs.length) "u64s" (.sym "u64s")) "#len(u64s)"
+      (.int (vs.length : Int))) "#i" (.int 0))
+    [("bytesToUint64s", [.int e, .int w, .sym "in"])] (f + 1) (by rw [hl]; omega)
+    (by rw [hl]; exact ⟨rfl, rfl, rfl⟩) (by omega)
+  rw [seqKW_ret_fell _ _ _ l1]
+  refine ⟨rfl, ?_, ?_⟩
+  · rw [← wideArgs_eq_argsOf]; exact l3
+  · rw [l2, List.drop_zero, List.map_map]; rfl
+
+/-- **the float decoders are the integer decoder followed by `math.Float32frombits` / `Float64frombits` per element,
+    in order**: for every input of a length that is a multiple of the element size and every valid selector pair,
+    the integer decoder's run appends the model's values `vs` (`C17W_bytesToUint32s`), and the float wrapper, run
+    with `u32s` denoting that list, calls the integer decoder exactly once, with `(endianness, wordOrder, in)`,
+    and appends the same bit patterns in the same order -/
+theorem C17W_bytesToFloats (e w : Int) (he : e = 1 ∨ e = 2) (bs : Bytes) (hn : bs.length < 2^62) (fuel : Nat)
+    (hf : bs.length + 20 ≤ fuel) :
+    (bs.length % 4 = 0 → ∃ vs : List U32,
+      Enc.bytesToUint32s (endianOfInt e) (wordOfInt w) bs = some vs ∧
+      wideAppended (execFromW (wideWorld bs) fuel dec32Gs (wideDecEnv e w bs.length) []).calls = vs.map u32Val ∧
+      let r := execFromW (wideFloatWorld (vs.map (fun v => (v.toNat : Int)))) fuel decF32Gs
+        (wideFloatDec32Env e w vs.length) []
+      r.how = .returned ∧ r.argsOf "bytesToUint32s" = [[.int e, .int w, .sym "in"]] ∧
+      wideAppended r.calls = vs.map u32Val) ∧
+    (bs.length % 8 = 0 → ∃ vs : List U64,
+      Enc.bytesToUint64s (endianOfInt e) (wordOfInt w) bs = some vs ∧
+      wideAppended (execFromW (wideWorld bs) fuel dec64Gs (wideDecEnv e w bs.length) []).calls = vs.map u64Val ∧
+      let r := execFromW (wideFloatWorld (vs.map (fun v => (v.toNat : Int)))) fuel decF64Gs
+        (wideFloatDec64Env e w vs.length) []
+      r.how = .returned ∧ r.argsOf "bytesToUint64s" = [[.int e, .int w, .sym "in"]] ∧
+      wideAppended r.calls = vs.map u64Val) := by
+  constructor
+  · intro h4
+    obtain ⟨vs, hm, _, ha⟩ := (C17W_bytesToUint32s e w he bs hn fuel (by omega)).1 h4
+    have hch := bytesToUint32s_chunks (endianOfInt e) (wordOfInt w) bs
+    rw [if_pos h4, hm] at hch
+    have hlen : vs.length = bs.length / 4 := by
+      rw [Option.some.inj hch]; exact wideChunks32_length _ _ bs
+    exact ⟨vs, hm, ha, C17W_bytesToFloat32s e w vs (by omega) fuel (by omega)⟩
+  · intro h8
+    obtain ⟨vs, hm, _, ha⟩ := (C17W_bytesToUint64s e w he bs hn fuel (by omega)).1 h8
+    have hch := bytesToUint64s_chunks (endianOfInt e) (wordOfInt w) bs.length bs rfl
+    rw [if_pos h8, hm] at hch
+    have hlen : vs.length = bs.length / 8 := by
+      rw [Option.some.inj hch]; exact wideChunks64_length _ _ bs.length bs rfl
+    exact ⟨vs, hm, ha, C17W_bytesToFloat64s e w vs (by omega) fuel (by omega)⟩
+
+/-! ## 7. round trip of the evaluated source -/
+
+theorem wide_map_byteVal_inj : ∀ (a b : Bytes), a.map byteVal = b.map byteVal → a = b
+  | [], [], _ => rfl
+  | [], _ :: _, h => nomatch h
+  | _ :: _, [], h => nomatch h
+  | x :: a, y :: b, h => by
+    simp only [List.map_cons, List.cons.injEq, byteVal, Val.int.injEq, Int.natCast_inj] at h
+    rw [BitVec.eq_of_toNat_eq h.1, wide_map_byteVal_inj a b h.2]
+
+theorem wide_enc32_length (e : Endian) (w : WordOrder) (v : U32) : (Enc.uint32ToBytes e w v).length = 4 := by
+  cases e <;> cases w <;> rfl
+theorem wide_enc64_length (e : Endian) (w : WordOrder) (v : U64) : (Enc.uint64ToBytes e w v).length = 8 := by
+  cases e <;> cases w <;> rfl
+
+theorem wide_endian_valid {e : Int} (he : e = 1 ∨ e = 2) : endianOfInt e ≠ .invalid := by
+  rcases he with rfl | rfl <;> exact fun h => nomatch h
+theorem wide_word_valid {w : Int} (hw : w = 1 ∨ w = 2) : wordOfInt w ≠ .invalid := by
+  rcases hw with rfl | rfl <;> exact fun h => nomatch h
+
+/-- **round trip**: for all four valid selector pairs and every value, the decoder run on the bytes that the
+    encoder run leaves in `out[0..]` returns, having appended exactly the value (from items 1/2, 4/5 and the
+    model's `u32_roundtrip` / `u64_roundtrip` of Props/C17) -/
+theorem C17W_roundtrip_src (e w : Int) (he : e = 1 ∨ e = 2) (hw : w = 1 ∨ w = 2) (fuel : Nat) (hf : 40 ≤ fuel) :
+    (∀ (v : U32) (bs : Bytes),
+      wideReadAll (exec widePutOracle fuel wideEnc32Gs (wideEnc32Env e w (v.toNat : Int))).env wideOut4 =
+        bs.map byteVal →
+      let dec := execFromW (wideWorld bs) fuel dec32Gs (wideDecEnv e w bs.length) []
+      bs = Enc.uint32ToBytes (endianOfInt e) (wordOfInt w) v ∧ dec.how = .returned ∧
+      wideAppended dec.calls = [u32Val v]) ∧
+    (∀ (v : U64) (bs : Bytes),
+      wideReadAll (exec widePutOracle fuel wideEnc64Gs (wideEnc64Env e w (v.toNat : Int))).env wideOut8 =
+        bs.map byteVal →
+      let dec := execFromW (wideWorld bs) fuel dec64Gs (wideDecEnv e w bs.length) []
+      bs = Enc.uint64ToBytes (endianOfInt e) (wordOfInt w) v ∧ dec.how = .returned ∧
+      wideAppended dec.calls = [u64Val v]) := by
+  constructor
+  · intro v bs hbs
+    have h1 := (C17W_uint32ToBytes e w v fuel (by omega)).2.2.1
+    rw [hbs] at h1
+    have hb := wide_map_byteVal_inj _ _ h1
+    subst hb
+    have hl := wide_enc32_length (endianOfInt e) (wordOfInt w) v
+    obtain ⟨vs, hm, hr, ha⟩ := (C17W_bytesToUint32s e w he _ (by rw [hl]; decide) fuel (by rw [hl]; omega)).1
+      (by rw [hl])
+    rw [u32_roundtrip _ _ v (wide_endian_valid he) (wide_word_valid hw)] at hm
+    rw [← Option.some.inj hm] at ha
+    exact ⟨rfl, hr, ha⟩
+  · intro v bs hbs
+    have h1 := (C17W_uint64ToBytes e w v fuel (by omega)).2.2.1
+    rw [hbs] at h1
+    have hb := wide_map_byteVal_inj _ _ h1
+    subst hb
+    have hl := wide_enc64_length (endianOfInt e) (wordOfInt w) v
+    obtain ⟨vs, hm, hr, ha⟩ := (C17W_bytesToUint64s e w he _ (by rw [hl]; decide) fuel (by rw [hl]; omega)).1
+      (by rw [hl])
+    rw [u64_roundtrip _ _ v (wide_endian_valid he) (wide_word_valid hw)] at hm
+    rw [← Option.some.inj hm] at ha
+    exact ⟨rfl, hr, ha⟩
+
+/-! ## 8. sensitivity: concrete runs (evaluated by the kernel) and variants -/
+
+section sensitivity
+
+/-- the bytes the encoder run leaves in `out[0..3]` / `out[0..7]` -/
+def wideEnc32Run (gs : GStmt) (e w v : Int) : List Val :=
+  wideReadAll (exec widePutOracle 40 gs (wideEnc32Env e w v)).env wideOut4
+def wideEnc64Run (gs : GStmt) (e w v : Int) : List Val :=
+  wideReadAll (exec widePutOracle 60 gs (wideEnc64Env e w v)).env wideOut8
+/-- how the decoder run ends and the values it appends -/
+def wideDec32Run (gs : GStmt) (e w : Int) (bs : Bytes) : End × List Val :=
+  let r := execFromW (wideWorld bs) 60 gs (wideDecEnv e w bs.length) []
+  (r.how, wideAppended r.calls)
+
+/-- the documented layouts of 0x11223344: big-endian high word first `11 22 33 44`, big-endian low word first
+    `33 44 11 22`, little-endian low word first `44 33 22 11`, little-endian high word first `22 11 44 33` -/
+theorem C17W_layouts32 :
+    wideEnc32Run wideEnc32Gs 1 1 0x11223344 = [.int 0x11, .int 0x22, .int 0x33, .int 0x44] ∧
+    wideEnc32Run wideEnc32Gs 1 2 0x11223344 = [.int 0x33, .int 0x44, .int 0x11, .int 0x22] ∧
+    wideEnc32Run wideEnc32Gs 2 2 0x11223344 = [.int 0x44, .int 0x33, .int 0x22, .int 0x11] ∧
+    wideEnc32Run wideEnc32Gs 2 1 0x11223344 = [.int 0x22, .int 0x11, .int 0x44, .int 0x33] ∧
+    wideEnc32Run wideEnc32Gs 3 1 0x11223344 = [.int 0, .int 0, .int 0, .int 0] := by
+  decide +kernel
+
+theorem C17W_layouts64 :
+    wideEnc64Run wideEnc64Gs 1 1 0x1122334455667788 =
+      [.int 0x11, .int 0x22, .int 0x33, .int 0x44, .int 0x55, .int 0x66, .int 0x77, .int 0x88] ∧
+    wideEnc64Run wideEnc64Gs 1 2 0x1122334455667788 =
+      [.int 0x77, .int 0x88, .int 0x55, .int 0x66, .int 0x33, .int 0x44, .int 0x11, .int 0x22] ∧
+    wideEnc64Run wideEnc64Gs 2 2 0x1122334455667788 =
+      [.int 0x88, .int 0x77, .int 0x66, .int 0x55, .int 0x44, .int 0x33, .int 0x22, .int 0x11] ∧
+    wideEnc64Run wideEnc64Gs 2 1 0x1122334455667788 =
+      [.int 0x22, .int 0x11, .int 0x44, .int 0x33, .int 0x66, .int 0x55, .int 0x88, .int 0x77] := by
+  decide +kernel
+
+/-- the decoders on the documented layouts give the value back; two values in order; a 6-byte input stops in
+    the second round (slice bounds / index out of range) after one value -/
+theorem C17W_decode_samples :
+    wideDec32Run dec32Gs 1 1 [0x11, 0x22, 0x33, 0x44] = (.returned, [.int 0x11223344]) ∧
+    wideDec32Run dec32Gs 1 2 [0x33, 0x44, 0x11, 0x22] = (.returned, [.int 0x11223344]) ∧
+    wideDec32Run dec32Gs 2 2 [0x44, 0x33, 0x22, 0x11] = (.returned, [.int 0x11223344]) ∧
+    wideDec32Run dec32Gs 2 1 [0x22, 0x11, 0x44, 0x33] = (.returned, [.int 0x11223344]) ∧
+    wideDec32Run dec32Gs 1 2 [0x33, 0x44, 0x11, 0x22, 0, 2, 0, 1] = (.returned, [.int 0x11223344, .int 0x00010002]) ∧
+    wideDec32Run dec32Gs 1 1 [0x11, 0x22, 0x33, 0x44, 0x55, 0x66] =
+      (.stoppedAt "slice" [.sym "in", .int 4, .int 8], [.int 0x11223344]) ∧
+    wideDec32Run dec32Gs 2 1 [0x22, 0x11, 0x44, 0x33, 0x55, 0x66] =
+      (.stoppedAt "bytes" [.unk, .unk, .int 0x55, .int 0x66], [.int 0x11223344]) ∧
+    (let r := execFromW (wideWorld [0x77, 0x88, 0x55, 0x66, 0x33, 0x44, 0x11, 0x22]) 60 dec64Gs
+        (wideDecEnv 1 2 8) []
+     (r.how, wideAppended r.calls) = (.returned, [.int 0x1122334455667788])) := by
+  decide +kernel
+
+/-- invalid byte order in the decoder (outside the theorems above; not reachable through the public API, which
+    validates the selectors): no `case` matches, `u32` keeps its zero value, no element is read, so the run
+    does NOT stop on a length that is not a multiple of 4: 6 bytes give two zeros, where the model
+    (`Enc.bytesToUint32s .invalid`) says `none`; on a multiple of 4 they agree -/
+theorem C17W_decode_invalid_endianness :
+    wideDec32Run dec32Gs 3 1 [1, 2, 3, 4, 5, 6] = (.returned, [.int 0, .int 0]) ∧
+    Enc.bytesToUint32s (endianOfInt 3) (wordOfInt 1) [1, 2, 3, 4, 5, 6] = none ∧
+    wideDec32Run dec32Gs 3 1 [1, 2, 3, 4, 5, 6, 7, 8] = (.returned, [.int 0, .int 0]) ∧
+    Enc.bytesToUint32s (endianOfInt 3) (wordOfInt 1) [1, 2, 3, 4, 5, 6, 7, 8] = some [0, 0] := by
+  decide +kernel
+
+/-- apply `f` to the condition of every `if` -/
+def wideMapCond (f : GExpr → GExpr) : GStmt → GStmt
+  | .seq a b => .seq (wideMapCond f a) (wideMapCond f b)
+  | .ite c t e => .ite (f c) (wideMapCond f t) (wideMapCond f e)
+  | .loop b => .loop (wideMapCond f b)
+  | s => s
+/-- `wordOrder == k` ↦ `wordOrder == 3 - k` (the swap applied for the other word order) -/
+def wideFlipWord : GExpr → GExpr
+  | .cmp op (.var x t) (.lit v t') =>
+    if op = "==" ∧ x = "wordOrder" then .cmp op (.var x t) (.lit (3 - v) t') else .cmp op (.var x t) (.lit v t')
+  | e => e
+/-- rename the leaf on the right-hand side of every assignment `x = leaf` -/
+def wideRenRhs (f : String → String) : GStmt → GStmt
+  | .assign x (.var y t) => .assign x (.var (f y) t)
+  | .seq a b => .seq (wideRenRhs f a) (wideRenRhs f b)
+  | .ite c t e => .ite c (wideRenRhs f t) (wideRenRhs f e)
+  | .loop b => .loop (wideRenRhs f b)
+  | s => s
+def wideRenE (f : String → String) : GExpr → GExpr
+  | .var y t => .var (f y) t
+  | e => e
+/-- rename the leaf arguments of the calls to `callee` -/
+def wideRenArgs (callee : String) (f : String → String) : GStmt → GStmt
+  | .bindCall ts g as => if g = callee then .bindCall ts g (as.map (wideRenE f)) else .bindCall ts g as
+  | .seq a b => .seq (wideRenArgs callee f a) (wideRenArgs callee f b)
+  | .ite c t e => .ite c (wideRenArgs callee f t) (wideRenArgs callee f e)
+  | .loop b => .loop (wideRenArgs callee f b)
+  | s => s
+def wideSwapNames (a b : String) (x : String) : String := if x = a then b else if x = b then a else x
+
+/-- variant 1: the word swap applied for the WRONG word order -/
+def wideV1 : GStmt := wideMapCond wideFlipWord wideEnc32Gs
+/-- variant 2: `out[0], out[1], out[2], out[3] = out[3], out[2], out[0], out[1]` -/
+def wideV2 : GStmt := wideRenRhs (wideSwapNames "out[2]" "out[3]") wideEnc32Gs
+/-- variant 3: the decoder's byte literal reads `in[i+2], in[i+3], in[i+1], in[i+0]` -/
+def wideV3 : GStmt := wideRenArgs "bytes" (wideSwapNames "in[i+0]" "in[i+1]") dec32Gs
+/-- variant 4 (64 bit): the swap exchanges 32-bit halves only: `out[0..3], out[4..7] = out[4..7], out[0..3]` -/
+def wideV4 : GStmt :=
+  wideRenRhs (fun x => if x = "out[6]" then "out[4]" else if x = "out[7]" then "out[5]" else
+    if x = "out[4]" then "out[6]" else if x = "out[5]" then "out[7]" else
+    if x = "out[2]" then "out[0]" else if x = "out[3]" then "out[1]" else
+    if x = "out[0]" then "out[2]" else if x = "out[1]" then "out[3]" else x) wideEnc64Gs
+
+/-- **the variants are told apart**: each gives bytes / a value different from the generated term's on
+    0x11223344 (0x1122334455667788) -/
+theorem C17W_sensitive :
+    -- 1. wrong word order: the two layouts of a byte order are exchanged
+    wideEnc32Run wideV1 1 1 0x11223344 = [.int 0x33, .int 0x44, .int 0x11, .int 0x22] ∧
+    wideEnc32Run wideEnc32Gs 1 1 0x11223344 = [.int 0x11, .int 0x22, .int 0x33, .int 0x44] ∧
+    wideEnc32Run wideV1 2 2 0x11223344 = [.int 0x22, .int 0x11, .int 0x44, .int 0x33] ∧
+    wideEnc32Run wideEnc32Gs 2 2 0x11223344 = [.int 0x44, .int 0x33, .int 0x22, .int 0x11] ∧
+    -- 2. another permutation
+    wideEnc32Run wideV2 1 2 0x11223344 = [.int 0x44, .int 0x33, .int 0x11, .int 0x22] ∧
+    wideEnc32Run wideEnc32Gs 1 2 0x11223344 = [.int 0x33, .int 0x44, .int 0x11, .int 0x22] ∧
+    -- 3. decoder literal with two bytes exchanged
+    wideDec32Run wideV3 1 2 [0x33, 0x44, 0x11, 0x22] = (.returned, [.int 0x11224433]) ∧
+    wideDec32Run dec32Gs 1 2 [0x33, 0x44, 0x11, 0x22] = (.returned, [.int 0x11223344]) ∧
+    -- 4. 64 bit, halves exchanged instead of the four words reversed
+    wideEnc64Run wideV4 1 2 0x1122334455667788 =
+      [.int 0x55, .int 0x66, .int 0x77, .int 0x88, .int 0x11, .int 0x22, .int 0x33, .int 0x44] ∧
+    wideEnc64Run wideEnc64Gs 1 2 0x1122334455667788 =
+      [.int 0x77, .int 0x88, .int 0x55, .int 0x66, .int 0x33, .int 0x44, .int 0x11, .int 0x22] := by
+  decide +kernel
+
+/-- why the probes: the generated term as it is (no probe) has no value for `in[i+2]` …: the low-word-first
+    decoder stops at its byte literal in the first round; the high-word-first path does not read indexed leaves
+    (it takes `in[i:i+4]`, answered from the VALUE of `i`) and runs without them -/
+theorem C17W_sensitive_noProbe :
+    wideDec32Run gsp_bytesToUint32s 1 2 [0x33, 0x44, 0x11, 0x22] =
+      (.stoppedAt "bytes" [.unk, .unk, .unk, .unk], []) ∧
+    wideDec32Run gsp_bytesToUint32s 1 1 [0x11, 0x22, 0x33, 0x44, 0, 0, 0, 1] =
+      (.returned, [.int 0x11223344, .int 1]) := by
+  decide +kernel
+
+end sensitivity
+
 end Modbus.Props.C17
+
+#print axioms Modbus.Props.C17.C17W_enc32_instr
+#print axioms Modbus.Props.C17.C17W_enc64_instr
+#print axioms Modbus.Props.C17.C17W_uint32ToBytes
+#print axioms Modbus.Props.C17.C17W_uint32ToBytes_valid
+#print axioms Modbus.Props.C17.C17W_twins
+#print axioms Modbus.Props.C17.C17W_uint64ToBytes
+#print axioms Modbus.Props.C17.C17W_uint64ToBytes_valid
+#print axioms Modbus.Props.C17.C17W_float32ToBytes
+#print axioms Modbus.Props.C17.C17W_float64ToBytes
+#print axioms Modbus.Props.C17.C17W_floatToBytes
+#print axioms Modbus.Props.C17.C17W_dec32_instr
+#print axioms Modbus.Props.C17.C17W_bytesToUint32s
+#print axioms Modbus.Props.C17.C17W_dec64_instr
+#print axioms Modbus.Props.C17.C17W_bytesToUint64s
+#print axioms Modbus.Props.C17.C17W_bytesToUint32s_invalid
+#print axioms Modbus.Props.C17.C17W_bytesToUint64s_invalid
+#print axioms Modbus.Props.C17.C17W_decF32_instr
+#print axioms Modbus.Props.C17.C17W_bytesToFloat32s
+#print axioms Modbus.Props.C17.C17W_decF64_instr
+#print axioms Modbus.Props.C17.C17W_bytesToFloat64s
+#print axioms Modbus.Props.C17.C17W_bytesToFloats
+#print axioms Modbus.Props.C17.C17W_roundtrip_src
+#print axioms Modbus.Props.C17.C17W_layouts32
+#print axioms Modbus.Props.C17.C17W_layouts64
+#print axioms Modbus.Props.C17.C17W_decode_samples
+#print axioms Modbus.Props.C17.C17W_decode_invalid_endianness
+#print axioms Modbus.Props.C17.C17W_sensitive
+#print axioms Modbus.Props.C17.C17W_sensitive_noProbe
